@@ -1,7 +1,10 @@
 (* ConstTie.v — tie between the named constants of /repo/src (SrcConsts.v, regenerated from the source on every run by
    tools/srcconsts.py) and the values the model uses. Each statement reads: if the crate still has a constant of that
    name, its value is the model's. A constant that disappeared (rename) makes the statement trivially true; a constant
-   whose value changed breaks the proof, i.e. the model no longer describes the source. *)
+   whose value changed breaks the proof, i.e. the model no longer describes the source.
+   This file holds the vocabulary only; the obligations are split by the property that depends on the constants, so that
+   a changed constant fails the gate of the properties it matters to and of no other:
+   ConstTieHash.v (C05: hash type bytes, tree namespace), ConstTieLayout.v (C06: on-disk layout), ConstTieBits.v (C08: bitfield pages). *)
 From HC Require Import Base Codec CodecFacts Crypto Storage Bitfield Oplog Merkle OplogFacts SrcConsts.
 From Coq Require Import Lia.
 
@@ -9,49 +12,3 @@ Definition tied {A} (src : option A) (model : A) : Prop :=
   match src with Some v => v = model | None => True end.
 
 Ltac tie := vm_compute; first [reflexivity | exact I].
-
-Lemma tie_node_size : tied src_NODE_SIZE NODE_SIZE.                                   Proof. tie. Qed.
-Lemma tie_max_entries : tied src_MAX_OPLOG_ENTRIES_BYTE_SIZE MAX_OPLOG_ENTRIES_BYTE_SIZE. Proof. tie. Qed.
-Lemma tie_header_size : tied src_HEADER_SIZE HEADER_SIZE.                             Proof. tie. Qed.
-(* the entries start after the two header slots *)
-Lemma tie_entries_offset : tied (option_map (N.mul 2) src_HEADER_SIZE) ENTRIES_OFFSET. Proof. tie. Qed.
-Lemma tie_initial_bits : tied src_INITIAL_HEADER_BITS [fst INITIAL_HEADER_BITS; snd INITIAL_HEADER_BITS]. Proof. tie. Qed.
-Lemma tie_page_bits : tied src_DYNAMIC_BITFIELD_PAGE_SIZE PAGE_BITS.                  Proof. tie. Qed.
-Lemma tie_page_bits_fixed : tied src_FIXED_BITFIELD_BITS_LENGTH PAGE_BITS.            Proof. tie. Qed.
-Lemma tie_page_bytes : tied src_FIXED_BITFIELD_BYTES_LENGTH PAGE_BYTES.               Proof. tie. Qed.
-Lemma tie_page_words : tied (option_map (N.mul 4) src_FIXED_BITFIELD_LENGTH) PAGE_BYTES. Proof. tie. Qed.
-Lemma tie_tree_ns : tied src_TREE TREE_NS.                                            Proof. tie. Qed.
-Lemma tie_default_ns : tied src_DEFAULT_NAMESPACE DEFAULT_NAMESPACE.                  Proof. tie. Qed.
-
-(* the type bytes of the three hash layouts, read off the preimages the model builds *)
-Lemma tie_leaf_type : tied src_LEAF_TYPE (firstn 1 (leaf_preimage [])).            Proof. tie. Qed.
-Lemma tie_parent_type (a b : node) :
-  tied src_PARENT_TYPE (firstn 1 (parent_preimage a b)).
-Proof. unfold parent_preimage. destruct (n_index a <=? n_index b); tie. Qed.
-Lemma tie_root_type : tied src_ROOT_TYPE (firstn 1 (tree_preimage [])).               Proof. tie. Qed.
-
-(* leader = CRC field + length field: a frame is LEADER_SIZE bytes longer than its payload, the CRC field has CRC_SIZE bytes *)
-Lemma tie_leader_size cr bit partial payload fr :
-  frame cr bit partial payload = Ok fr ->
-  tied src_LEADER_SIZE (len fr - len payload) /\ tied src_CRC_SIZE (len (le_bytes 4 (cr_crc cr []))).
-Proof.
-  intros H. apply frame_length in H. split.
-  - replace (len fr - len payload) with 8 by lia. tie.
-  - rewrite len_le_bytes. tie.
-Qed.
-
-Theorem source_constants_are_the_models :
-  tied src_NODE_SIZE NODE_SIZE /\ tied src_MAX_OPLOG_ENTRIES_BYTE_SIZE MAX_OPLOG_ENTRIES_BYTE_SIZE /\
-  tied src_HEADER_SIZE HEADER_SIZE /\ tied (option_map (N.mul 2) src_HEADER_SIZE) ENTRIES_OFFSET /\
-  tied src_INITIAL_HEADER_BITS [fst INITIAL_HEADER_BITS; snd INITIAL_HEADER_BITS] /\
-  tied src_DYNAMIC_BITFIELD_PAGE_SIZE PAGE_BITS /\ tied src_FIXED_BITFIELD_BITS_LENGTH PAGE_BITS /\
-  tied src_FIXED_BITFIELD_BYTES_LENGTH PAGE_BYTES /\ tied (option_map (N.mul 4) src_FIXED_BITFIELD_LENGTH) PAGE_BYTES /\
-  tied src_TREE TREE_NS /\ tied src_DEFAULT_NAMESPACE DEFAULT_NAMESPACE /\
-  tied src_LEAF_TYPE (firstn 1 (leaf_preimage [])) /\ tied src_ROOT_TYPE (firstn 1 (tree_preimage [])) /\
-  (forall a b, tied src_PARENT_TYPE (firstn 1 (parent_preimage a b))) /\
-  (forall cr bit partial payload fr, frame cr bit partial payload = Ok fr ->
-     tied src_LEADER_SIZE (len fr - len payload) /\ tied src_CRC_SIZE (len (le_bytes 4 (cr_crc cr [])))).
-Proof.
-  repeat split; try tie; try (intros; apply tie_parent_type); intros; eapply tie_leader_size; eassumption.
-Qed.
-Print Assumptions source_constants_are_the_models.
